@@ -19,6 +19,9 @@ type Stmt struct {
 	Secrets [][]byte
 	// Protected reports whether the statement mentions a protected column at all.
 	Protected bool
+	// ShapeAs, when set, is an equivalent spelling of the (single) query whose parse-tree shape the
+	// forwarded statement is compared with instead (e.g. operands of a symmetric operator swapped).
+	ShapeAs string
 }
 
 // Q builds a simple-protocol statement.
